@@ -87,20 +87,24 @@ pub trait ParseAttribute: Sized {
 }
 
 fn parse_attr<T: ParseAttribute>(attr: &syn::Attribute, target: &mut T) -> Result<()> {
-    let mut errors = Error::accumulator();
     match &attr.meta {
         syn::Meta::List(data) => {
-            for item in NestedMeta::parse_meta_list(data.tokens.clone())? {
+            // Parse the list before creating the accumulator: a syntax error inside the
+            // attribute must be returned, not turn into an unfinished (panicking) accumulator.
+            let items = NestedMeta::parse_meta_list(data.tokens.clone())?;
+            let mut errors = Error::accumulator();
+
+            for item in items {
                 if let NestedMeta::Meta(ref mi) = item {
                     errors.handle(target.parse_nested(mi));
                 } else {
-                    panic!("Wasn't able to parse: `{:?}`", item);
+                    errors.push(Error::unsupported_format("literal").with_span(&item));
                 }
             }
 
             errors.finish()
         }
-        item => panic!("Wasn't able to parse: `{:?}`", item),
+        item => Err(Error::unsupported_format("non-list").with_span(item)),
     }
 }
 
